@@ -19,12 +19,12 @@ open OllamaVerif.KV OllamaVerif.Causal OllamaVerif.Generated.C06
 def variant : Variant :=
   { fixDefrag := variantBits % 2 = 1, fixResume := (variantBits / 2) % 2 = 1,
     fixDiv := (variantBits / 4) % 2 = 1, perSeqBatch := (variantBits / 8) % 2 = 1,
-    atomicRemove := (variantBits / 16) % 2 = 1 }
+    atomicRemove := (variantBits / 16) % 2 = 1, atomicWrapperRemove := (variantBits / 32) % 2 = 1 }
 
-/-- **The tree carries every repair** (F14, F15b, F23, SWA capacity, F28): the variant probed from the real
-    code on this run is the all-fixed one.  A tree that lost a repair no longer builds this module (and the
-    check reports `variant-regression` with the finding's witness history as input). -/
-theorem variant_is_all_fixed : variantBits = 31 := by decide
+/-- **The tree carries every repair that has been applied** (F14, F15b, F23, SWA capacity, F28 = bits 1..16;
+    bit 32 = the proposed F29 repair may or may not be present): a tree that lost one no longer builds this module
+    (and the check reports `variant-regression` with the finding's witness history as input). -/
+theorem variant_is_all_fixed : variantBits % 32 = 31 := by decide
 
 def win (w : Nat) : Option Int := if w = 0 then none else some (w : Int)
 
